@@ -14,7 +14,7 @@ import (
 // of a <Service>_<Func>_Helper; the args/result structs are <fn>_Args/<fn>_Result.
 //
 //	hargs   <fn> G1 … Gn            → ok G(args struct)
-//	hwrap   <fn> val G | void | exc <i> G | nilexc <i> | other   → ok G(result) | err
+//	hwrap   <fn> val G | void | exc <i> G | nilexc <i> | wrapped <i> G | other   → ok G(result) | err
 //	hunwrap <fn> G(result)          → ok val G | ok void | ok exc <i> G | ok other
 //	hisexc  <fn> exc <i> G | other | nil                         → ok 0|1
 //	hsig    <fn>                    → ok Args=<sig> | Wrap=<sig> | Unwrap=<sig>
@@ -116,7 +116,7 @@ func (s *session) helperOp(toks []string) (string, error) {
 			if hasSuccess {
 				return "", bad("non-void function")
 			}
-		case "exc", "nilexc":
+		case "exc", "nilexc", "wrapped":
 			if len(toks) < 4 {
 				return "", bad("short")
 			}
@@ -149,6 +149,10 @@ func (s *session) helperOp(toks []string) (string, error) {
 			}
 			errv = reflect.New(errType).Elem()
 			errv.Set(ev)
+			if toks[2] == "wrapped" {
+				// an error of a type the function does not declare, with a declared exception in its chain
+				errv = reflect.ValueOf(fmt.Errorf("while serving the request: %w", ev.Interface().(error))).Convert(errType)
+			}
 		case "other":
 			errv = reflect.ValueOf(errors.New("not a declared exception")).Convert(errType)
 		default:
